@@ -79,7 +79,7 @@ def loose_eq(a, b):
 
 class C08Oracle(worldprop.Oracle):
     def after(self, idx, op, ob):
-        if op[0] not in ("NewRecord", "Factory", "AddAttrs", "AddRecord", "Update", "AddBundleDoc", "SetTime", "AddType"):
+        if op[0] not in ("NewRecord", "Factory", "ElemMethod", "AddAttrs", "AddRecord", "Update", "AddBundleDoc", "SetTime", "AddType"):
             return
         import prov.model as M
         for di in range(len(self.im.docs)):
